@@ -121,5 +121,6 @@ def run(ctx, rule="CONTROL"):
             "try_multi": ["try-multi"], "try_single": [], "zip_domain": ["zip-domain"], "zip_same_table": [],
             "Seq.__eq__": ["equality"], "Seq2.__eq__": [], "or_none": ["or-none"],
             "alloc_domain": ["alloc-domain"], "alloc_domain_indexed": [],
-            "fold_dropped": ["fold-dropped"], "fold_kept": []}
+            "fold_dropped": ["fold-dropped"], "fold_kept": [],
+            "uint_arith": ["uint-arith"], "uint_arith_converted": []}
     ctx.ob(rule, "py-slips", got == want, fx, "python slip lints on the fixture: %s" % got)
